@@ -35,6 +35,9 @@ checks = {
  "C16": ("model_checking", "exhaustive products: allow/deny CIDR list configurations x boundary addresses x network types through the real dialer control function (vs net/netip); server names x well-known outcomes x SRV outcomes through the real ResolveServer / LookupWellKnown with in-process HTTP and DNS stubs and a virtual clock (vs the specification's resolution steps); every success/failure plan of both connection passes through the real transport cache with scripted in-memory connections",
          "Each cell of the configuration/fault products is executed on the real code and compared with an independent reference of the resolution steps and the network policy; connection attempts are observed at the dial and HTTP level.",
          "net/netip and Go's DNS client trusted; unspecified outcomes (SERVFAIL on _matrix-fed, invalid delegated name) accepted either way", "4/C16"),
+ "C07": ("model_checking", "full enumeration of the abstract auth-rule space per event class (pruned only by irrelevance) x room versions; every cell is concretised into real events and the real Allowed is compared with an independent reference of the rules (refauth); decisive cells (verdict flips on one coordinate) are counted",
+         "Every cell of the rule space within the listed dimension menus is executed on the real code. The reference is a numbered transcription of the specification plus the documented departures D1-D16; any other disagreement is a violation.",
+         "refauth may share a misreading with the code; mitigated by decisive-cell counts and the seeded-change runs", "4/C07, 5.1"),
 }
 pending = {}
 props = [json.loads(l) for l in open('/verif/properties.jsonl')]
